@@ -1,7 +1,7 @@
 PROP = dict(
   units=['kbq', 'kfq'],
   level='other',
-  obligations=['kbq.slot.any_pointer', 'kfq.slot.any_pointer', 'kbq.idx.roundtrip', 'kbq.ctor.size', 'kbq.ctor.state', 'kbq.in_valid.spec', 'kbq.not_in_valid.spec', 'kbq.find_index.covers', 'kbq.find_index.result',
+  obligations=['kbq.slot.any_pointer', 'kfq.slot.any_pointer', 'kbq.pop_optional.same_as_try_pop', 'kfq.pop_optional.same_as_try_pop', 'kbq.idx.roundtrip', 'kbq.ctor.size', 'kbq.ctor.state', 'kbq.in_valid.spec', 'kbq.not_in_valid.spec', 'kbq.find_index.covers', 'kbq.find_index.result',
                'kbq.push.reject', 'kbq.push.stores', 'kbq.pop.empty', 'kbq.pop.oldest_segment', 'kbq.pop.k_oldest', 'kbq.inv.preserved', 'kbq.advance.by_k',
                'kbq.push.commit', 'kbq.push.commit_split_snapshot', 'kbq.committed.withdrawn', 'kbq.push.validate', 'kbq.pop.validate', 'kbq.sync.scan_acquire', 'kbq.sync.slot_release', 'kbq.dtor.each_once',
                'kfq.find_index.covers', 'kfq.find_index.result', 'kfq.push.stores', 'kfq.pop.empty', 'kfq.pop.oldest_segment', 'kfq.pop.k_oldest', 'kfq.inv.preserved',
